@@ -120,6 +120,7 @@ def norm_options(o):
         "dry_run": bool(o.get("dry_run", False)),
         "parallel": par,
         "entry": entry,
+        "preserve": bool(o.get("preserve", False)),
     }
 
 
@@ -392,6 +393,9 @@ def invoke(plan, src_root, dst_root, **override):
                     dry_run=opts["dry_run"],
                     parallel=opts["parallel"],
                 )
+                if opts.get("preserve"):
+                    # rsync-style "archive" options: permissions and modification times travel with the files
+                    kwargs.update(preserve_permissions=True, preserve_times=True)
                 filecmp.clear_cache()
                 if opts["entry"] == "sync_projects":
                     sync.sync_projects(src, dst, **kwargs)
@@ -411,6 +415,8 @@ def invoke(plan, src_root, dst_root, **override):
                         deep=opts["deep"],
                         dry_run=opts["dry_run"],
                     )
+                    if opts.get("preserve"):
+                        kwargs.update(preserve_permissions=True, preserve_times=True)
                     filecmp.clear_cache()
                     if opts["entry"] == "sync_jobs":
                         sync.sync_jobs(sj, dj, **kwargs)
@@ -882,6 +888,7 @@ def option_sets(draw, mode):
         "dry_run": False,
         "parallel": False,
         "entry": entry,
+        "preserve": draw(st.integers(0, 3)) == 0,
     }
     p_ex, p_sel = (3, 3) if mode != "c15" else (1, 1)
     if draw(st.integers(0, p_ex)) == 0:
